@@ -434,7 +434,7 @@ pub fn monitor(tier: Tier) -> Monitor {
             "check None gives no protection for payload bytes: only structural fields are asserted there".into(),
             "a payload bit flip that leaves the decoded bytes identical (e.g. the ignored first range-coder byte) is not a violation".into(),
         ],
-        families: vec![Family { name: "files", count: tier.pick(320, 20_000), priority: false, enumerated: false, run: fam_files }],
+        families: vec![Family { name: "files", count: tier.pick(2400, 40_000), priority: false, enumerated: false, run: fam_files }],
         label,
         floors,
         summarize: no_summary,
